@@ -431,6 +431,7 @@ func main() {
 	streamFinal(rngFor(7))
 	streamBlocks(rngFor(8))
 	weightManyTxCases(rngFor(9))
+	weightCountCases(rngFor(10))
 
 	r.Assume = []string{
 		"SHA-256 is modelled (executable Lean version validated here against Go's), theorems are parametric in the hash function",
@@ -866,6 +867,11 @@ func replay(path string) {
 		replayBlock(doc.Replay)
 	case "weight-many":
 		weightManyTxCases(rngFor(9))
+	case "weight-count":
+		var cs uint64
+		fmt.Sscan(str("wc_seed"), &cs)
+		wit, _ := doc.Replay["witness"].(bool)
+		weightCountCase(cs, int(num("transactions")), int(num("target_weight")), wit)
 	default:
 		// gnwr / mtp cases and proof-level violations are reproduced by re-running the stream with the same seed
 		// tree-based streams are reproduced by re-running that stream with the recorded seed
